@@ -26,12 +26,23 @@ func main() {
 		dump    = flag.Bool("dump", false, "print every obligation")
 		expect  = flag.String("expect", "", "control mode: exit 0 iff some violated/undecided obligation has rule[/construct-substring] (comma list of rule:substr)")
 		listAll = flag.Bool("list", false, "list properties")
+		sigs    = flag.Bool("signatures", false, "print the extracted executor signatures (A6) and exit")
 	)
 	flag.Parse()
 	if *listAll {
 		for _, id := range sortedKeys(props) {
 			fmt.Println(id, props[id].Level)
 		}
+		return
+	}
+	verifRoot = *verif
+	if *sigs {
+		p, err := loadProgram(*repo, *goarch)
+		if err != nil {
+			fmt.Println(err)
+			os.Exit(2)
+		}
+		dumpSignatures(p)
 		return
 	}
 	if env := os.Getenv("VERIF_TIER"); env != "" && !flagSet("tier") {
